@@ -185,13 +185,15 @@ def subtract_rows(a_rows, b_rows):
 # ----------------------------------------------------------------- subdivide
 
 def subdivide_counts(span, avg):
-    """Admissible bin counts: Python's round and round-half-up differ at .5."""
+    """The bin count of a merged region: max(1, round(span/avg)) with Python's
+    round (the statement's formula read literally; exact .5 ties go to the even
+    neighbour)."""
+    return {max(1, int(round(span / avg)))}
+
+
+def subdivide_is_tie(span, avg):
     q = span / avg
-    c = {max(1, int(round(q)))}
-    if abs(q - int(q) - 0.5) < 1e-12:
-        c.add(max(1, int(q) + 1))
-        c.add(max(1, int(q)))
-    return c
+    return q - int(q) == 0.5
 
 
 # ------------------------------------------------------------------- resize
